@@ -7,6 +7,7 @@ import Mathlib.Tactic.FieldSimp
 import Mathlib.Tactic.Positivity
 import Mathlib.Tactic.ByContra
 import Mathlib.Algebra.Order.Field.Rat
+import Mathlib.Data.List.Nodup
 
 namespace OdcGeo.C14
 
@@ -318,6 +319,10 @@ theorem mem_rangeI (a b x : Int) : x ∈ rangeI a b ↔ a ≤ x ∧ x < b := by
   constructor
   · rintro ⟨i, hi, rfl⟩; omega
   · intro h; exact ⟨(x - a).toNat, by omega, by omega⟩
+
+theorem rangeI_nodup (a b : Int) : (rangeI a b).Nodup := by
+  unfold rangeI
+  exact List.Nodup.map (fun i j h => by simpa using h) (List.nodup_range)
 
 namespace Bin1D
 
